@@ -629,6 +629,8 @@ def d7(ctx, prog):
             elif a == {'2'} and b == {'1'}:
                 ctx.fail('C18-D7', key, f'`{norm(c)[:60]}` applies the operation to (point of frame_2, point of frame_1): a non-symmetric operation (Difference) returns x[j] - x[i], the negated '
                          f'value, in this mode only', f.where(c))
+            elif f.cls is not None and getattr(prog, '_c18_d8_ok', {}).get(f.cls.name) is True:
+                ctx.ok('C18-D7', key, 'operand order decided by the enumeration on symbolic traces with an uninterpreted, order-sensitive operation (C18-D8)', f.where(c))
             else:
                 ctx.undecided('C18-D7', key, f'operand provenance not derivable (first {sorted(a)}, second {sorted(b)})', f.where(c))
     return n
@@ -782,7 +784,10 @@ def d8(ctx, prog):
                     bad = f'trace {n_}: columns {row[:6]}{"..." if len(row) > 6 else ""} ({len(row)} columns), documented {want[:6]}{"..." if len(want) > 6 else ""} ({len(want)} columns)'
                     break
             ctx.check(bad is None, 'C18-D8', key, f'{bad}', f'{len(pairs)} pairs per trace, in the documented order, each row built from its own trace', f.where())
+            ok_ = prog.__dict__.setdefault('_c18_d8_ok', {})
+            ok_[cname] = (bad is None) and ok_.get(cname, True)
         except ratfun.Unknown as e:
+            prog.__dict__.setdefault('_c18_d8_ok', {})[cname] = False
             ctx.undecided('C18-D8', key, f'pair enumeration not evaluable: {e}', f.where())
     return n
 
